@@ -620,7 +620,7 @@ func (router *Router) processOTLPRequest(
 	// get environment name - will be empty for legacy keys
 	environment, err := router.getEnvironmentName(apiKey)
 	if err != nil {
-		return nil
+		return err
 	}
 	totalEvents := 0
 	for _, batch := range batches {
@@ -660,7 +660,7 @@ func (router *Router) processOTLPRequestBatchMsgp(
 	// get environment name - will be empty for legacy keys
 	environment, err := router.getEnvironmentName(apiKey)
 	if err != nil {
-		return nil
+		return err
 	}
 	totalEvents := 0
 	for _, batch := range batches {
